@@ -115,6 +115,7 @@ def make_sampler(ex, st, explored=None):
     sstate(st)
     clock(st)
     statfresh(st)
+    proposals(st)
     return st.alloc(ObjRec('Sampler', f), 'self')
 
 
@@ -215,6 +216,16 @@ def InvP(V):
 # ---------------------------------------------------------------------------
 # abstract Bound API (assumed here, proved for the concrete classes in C07)
 
+def proposals(st):
+    if 'proposals' not in st.ghost:
+        st.ghost['proposals'] = z3.Int(uid('proposals0'))
+    return st.ghost['proposals']
+
+
+def havoc_proposals(ex, st):
+    st.ghost['proposals'] = z3.Int(uid('proposals'))
+
+
 def install_bound_api(reg, cx):
     cx.assume_tag('BoundAPI: bound.sample(n) returns n rows inside the unit '
                   'cube and inside the bound; bound.contains is a pure '
@@ -231,6 +242,9 @@ def install_bound_api(reg, cx):
         ex.reg.havoc_ghost(ex, st, 'rng')
         if rp is False:
             return None
+        # ghost: number of proposals handed out so far (every row returned by
+        # bound.sample is one proposal, whatever happens to it afterwards)
+        st.ghost['proposals'] = proposals(st) + n_t
         r = A.fresh_arr(st, 'Pt', 'sampled', n=n_t)
         st.assume(A.forall_idx(n_t, lambda j: z3.And(
             incube(r.at(j)), C(b.t, r.at(j)))))
@@ -246,7 +260,8 @@ def install_bound_api(reg, cx):
     reg.sort_methods[('Bound', 'contains')] = b_contains
     reg.method_effects.setdefault('sample', dict(fields=[], ghost=[],
                                                  arg_cells=[]))
-    reg.method_effects['sample']['ghost'] = ['sstate', 'rng']
+    reg.method_effects['sample']['ghost'] = ['sstate', 'rng', 'proposals']
+    reg.ghost_havoc['proposals'] = havoc_proposals
     reg.ghost_havoc['sstate'] = havoc_sstate
     reg.ghost_havoc['clock'] = havoc_clock
 
